@@ -223,6 +223,15 @@ Definition ok (c : nv * nv * nat) : bool := let '(o, n, k) := c in
                         ctx.dist('route rejected'); continue
                     ctx.count(('route', nm, pname, route, type(val).__name__), nontrivial=True); ctx.dist('route ' + route)
                     if pname not in mod.pars: continue
+                    if route == 'pars':
+                        # the caller's dict is not consumed: a second module built from the SAME dict gets the same parameters
+                        try:
+                            shared = {pname: copy.deepcopy(val)}
+                            m1 = cls(pars=shared); keys_after = list(shared.keys()); m2 = cls(pars=shared)
+                            if keys_after != [pname]: viol(f'{cls.__name__}(pars=d) changed the caller\'s dict d (keys {keys_after} after the call, [{pname!r}] before)', dict(module=nm, par=pname, route='pars-twice'))
+                            elif not eff(m2, pname, shared[pname]): viol(f'{cls.__name__}: the second module built from the same pars dict does not have {pname}={val!r} in effect: {m2.pars[pname]!r}', dict(module=nm, par=pname, route='pars-twice'))
+                        except Exception:
+                            pass
                     if not eff(mod, pname, v2):
                         viol(f'{cls.__name__}: {pname}={val!r} supplied through {route} is not in effect: the parameter is {mod.pars[pname]!r}', dict(module=nm, par=pname, route=route))
     # ------------------------------------------------------------ (d) equivalent spellings, user-held objects
